@@ -5,6 +5,7 @@ cache; cargo's own freshness cache is defeated by deleting the workspace member'
 .fingerprint entries before every extraction and by asserting that the fact files were
 rewritten by this very run.
 """
+import re
 import fcntl
 import hashlib
 import json
@@ -126,18 +127,25 @@ def extract(profile="dev", repo=None, quiet=True):
     drv = file_hash(DRIVER_BIN)[:16]
     key = "%s-%s-%s" % (th[:24], drv, profile)
     fdir = os.path.join(BUILD, "facts", key)
-    with Lock("extract-" + profile):
+    # LACE_BUILD_TAG: campaign tools that check several scratch worktrees at once give each worker its own cargo target dir and lock
+    tag = os.environ.get("LACE_BUILD_TAG", "")
+    tag = ("-" + re.sub(r"[^A-Za-z0-9]", "", tag)) if tag else ""
+    with Lock("extract-" + profile + tag):
         ok = (os.path.exists(os.path.join(fdir, "lace-lib.json"))
               and os.path.exists(os.path.join(fdir, "lace-bin.json"))
               and os.path.exists(os.path.join(fdir, "header.json")))
         if ok and not os.environ.get("VERIF_NO_CACHE"):
             hd = json.load(open(os.path.join(fdir, "header.json")))
             if hd.get("tree_hash") == th and hd.get("driver") == drv:
+                try:
+                    os.utime(fdir, None)
+                except OSError:
+                    pass
                 return fdir, th
         tmp = fdir + ".tmp.%d" % os.getpid()
         shutil.rmtree(tmp, ignore_errors=True)
         os.makedirs(tmp)
-        target_dir = os.path.join(BUILD, "target-" + profile)
+        target_dir = os.path.join(BUILD, "target-" + profile + tag)
         t0 = time.time()
         r = _run_driver(profile, repo, tmp, target_dir)
         if r.returncode != 0:
@@ -161,7 +169,9 @@ def extract(profile="dev", repo=None, quiet=True):
         # keep the cache small: drop all but the 6 newest fact sets
         froot = os.path.join(BUILD, "facts")
         ents = sorted((os.path.getmtime(os.path.join(froot, d)), d) for d in os.listdir(froot) if ".tmp." not in d)
-        for _, d in ents[:-6]:
+        for mt, d in ents[:-6]:
+            if time.time() - mt < 1200:
+                continue          # checks may run side by side (campaign workers): a set extracted minutes ago may still be in use
             shutil.rmtree(os.path.join(froot, d), ignore_errors=True)
     return fdir, th
 
